@@ -7,7 +7,7 @@ from harness import ctl
 LEVEL = 'model_checking'
 MANIFEST = {'category': 'model_checking', 'engine': 'symx+z3',
  'technique': 'the real parse.message / Message.__init__ / Controller._show_message executed on proxy doubles (each IEEE operation modelled as the exact real result times (1+d), |d| <= 2^-53, a sound over-approximation of round-to-nearest in the normal range) with symbolic integer microsecond counts; z3 decides accuracy, shift invariance and the separator threshold; symx over the last-shown state machine with symbolic filter verdicts',
- 'text': 'For all logs times A (this message), B (first message), P (previously shown message), shift C, each an integer number of microseconds below 2^32 (libwayland prints an unsigned 32-bit microsecond counter as ms with three decimals): |shown - (A-B)/10^6| <= 10^-9 s, hence a constant shift changes the 4-decimal rendering by at most one unit of the last digit; the separator is printed whenever the gap is >= 1 s + 1 us and never when it is <= 1 s - 1 us (exactly 1.000 s is a don\'t-care: doubles go both ways there). The gap is taken between consecutively SHOWN messages: for every filter verdict vector over <= 4 live messages with gaps from a pool and an optional listing in between, separators appear exactly between consecutive shown lines more than a second apart; a listing starts without separator.',
+ 'text': 'For all logs times A (this message), B (first message), P (previously shown message), shift C, each an integer number of microseconds below 2^32 (libwayland prints an unsigned 32-bit microsecond counter as ms with three decimals): |shown - (A-B)/10^6| <= 10^-9 s, hence a constant shift changes the 4-decimal rendering by at most one unit of the last digit; the separator is printed whenever the gap is >= 1 s + 1 us and never when it is <= 1 s - 1 us (exactly 1.000 s is a don\'t-care: doubles go both ways there). The gap is taken between consecutively SHOWN messages: for every filter verdict vector over <= 4 live messages with gaps from a pool and an optional listing in between, separators appear exactly between consecutive shown lines more than a second apart; a listing starts without separator. The gap state machine runs over two connections interleaved in any way; time-stamp texts go through the real line loop in either order (times that decrease included).',
  'note': 'Trusted: z3 (nonlinear real arithmetic), the relative-error model of IEEE double (no overflow/underflow in the stated range), Python\'s correctly rounded float(str). str.format is outside (C library): only its argument is reasoned about.'}
 EXPLANATION = MANIFEST['text']
 ASSUMPTIONS = ['IEEE-754 binary64 round-to-nearest; relative error model valid in the normal range (times < 2^32 us)', 'float(text) is correctly rounded', 'timestamp text denotes an integer number of microseconds (libwayland prints %u.%03u ms)']
